@@ -3,7 +3,7 @@
    behaviours.  Kinds and classes are rotated against each other (a covering design): every
    (return kind x parameter kind), every (parameter kind x parameter kind) pair, every
    (function flavour x return kind) and every (class x flavour) occurs, without the full product. *)
-EXTENDS WrapC, Json, CSV, IOUtils
+EXTENDS WrapC, Json, CSV, IOUtils, SequencesExt
 
 PK == [i \in 1..20 |-> KindSeq[i]]
 RK == KindSeq
@@ -39,15 +39,35 @@ Sigs3(u) == WF({Mk(FK5[((x[1] + x[2] + x[3]) % 5) + 1], x[1] + x[3], RK[((x[1] +
 
 
 \* (operators with a parameter are evaluated on demand; TLC would evaluate constants of every tier eagerly)
-QuickChoices(l) == Sigs0(0) \cup Sigs1(0) \cup Sigs2(4)
+QuickChoices(l) == Sigs0(0) \cup Sigs1(0) \cup Sigs2(3)
 ThoroughChoices(l) == Sigs0(0) \cup Sigs1(0) \cup Sigs2(1) \cup Sigs3(0)
 
 PickAll(S) == S
 
 DumpFile == IF "VERIF_DUMP" \in DOMAIN IOEnv THEN IOEnv.VERIF_DUMP ELSE ""
 
+(* The dumped record is kept compact (well under 8 KB: concurrent workers append to one file and a larger
+   record would be written in several pieces): signatures are referred to by their index in `lib` (0 = the
+   constructor K(int) every class has), object states are <<st, bst>> (<<>> for a destroyed object). *)
+LibSeq == SetToSeq(lib)
+SigIdx(s) == IF s \in lib THEN CHOOSE i \in 1..Len(LibSeq) : LibSeq[i] = s ELSE 0
+CPost(p) == [o \in 1..Len(p) |-> IF p[o].live THEN <<p[o].st, p[o].bst>> ELSE <<>>]
+CStep(st) ==
+  CASE st.op = "new" -> [op |-> "new", obj |-> st.obj, cls |-> st.cls, s |-> SigIdx(st.sig), k |-> st.k, args |-> st.args,
+                         post |-> CPost(st.post)]
+    [] st.op = "call" /\ st.sig.fk = "setter" ->
+                        [op |-> "call", s |-> SigIdx(st.sig), k |-> st.k, this |-> st.this, args |-> st.args, ret |-> st.ret,
+                         rb |-> st.rb, post |-> CPost(st.post)]
+    [] st.op = "call" -> [op |-> "call", s |-> SigIdx(st.sig), k |-> st.k, this |-> st.this, args |-> st.args, ret |-> st.ret,
+                          post |-> CPost(st.post)]
+    [] st.op = "copy" -> [op |-> "copy", obj |-> st.obj, from |-> st.from, cls |-> st.cls, post |-> CPost(st.post)]
+    [] st.op = "upcast" -> [op |-> "upcast", obj |-> st.obj, to |-> st.to, exp |-> st.exp, post |-> CPost(st.post)]
+    [] st.op = "del" -> [op |-> "del", obj |-> st.obj, post |-> CPost(st.post)]
+\* WrapC!Required: the wrapper variants the database must list (number of parameters with `this`, optional flags)
+CReq == {[s |-> SigIdx(r.sig), k |-> r.k, np |-> Len(r.params), this |-> HasThis(r.sig), opt |-> r.optional] : r \in Required}
+
 DumpConstraint ==
   IF phase = "done" /\ DumpFile # ""
-    THEN CSVWrite("%1$s", <<ToJson([lib |-> lib, required |-> Required, script |-> script])>>, DumpFile)
+    THEN CSVWrite("%1$s", <<ToJson([lib |-> LibSeq, req |-> CReq, script |-> [i \in 1..Len(script) |-> CStep(script[i])]])>>, DumpFile)
     ELSE TRUE
 =============================================================================
